@@ -202,6 +202,24 @@ fn sha1_part(ctx: &Ctx) {
             a.add(true, check_sha1(&msg), "sha1", || json!({"msg": hex(&msg)}));
         }
     });
+    // a message whose bit length does not fit 32 bits (>= 512 MiB): the length field of the padding is 64 bits wide
+    if ctx.tier.pick(false, true) {
+        let len = (1usize << 29) + 5;
+        let mut msg = vec![0u8; len];
+        let mut rng = Lcg(pt::mix(seed, 1899));
+        for chunk in msg.chunks_mut(4096) {
+            let r = rng.next().to_le_bytes();
+            chunk[0] = r[0];
+            chunk[chunk.len() - 1] = r[1];
+        }
+        let f = check_sha1(&msg);
+        drop(msg);
+        par(ctx, |i, _n, a| {
+            if i == 0 {
+                a.add(true, f.clone(), "sha1-512MiB", || json!({"msg": "0x00 x (2^29+5) with pseudo-random bytes at both ends of every 4096-byte block (seeded)", "len": len}));
+            }
+        });
+    }
     ctx.sample("sha1", || json!({"msg_len": 55, "content": "0xFF x 55", "digest_ref": hex(&sha1(&vec![0xFFu8; 55]))}));
 }
 
